@@ -369,7 +369,7 @@ def explore(rec):
             120 if quick else 3000)
     rec.hyp("catalogue", st.builds(lambda f, sp: {"kind": "catalogue", "feature": f, "spice": sp},
                                    c04.feature_st(), st.integers(0, len(SPICES) - 1)),
-            700 if quick else 15000)
+            2000 if quick else 30000)
     if not quick:
         run_atheris(rec)
 
